@@ -167,3 +167,57 @@ def refuse_rule(rep, u, vals, opt):
             (rep.proved if clamp else rep.violated)("R-REFUSE", fp, "lowat-clamped", "tpt_ev_post: the 64-bit low-water mark is clamped before it is narrowed",
                                                     "" if clamp else "2^32 + 1 becomes SO_RCVLOWAT = 1", x.get("ln"))
     return n
+
+
+def close_after_del_rule(rep, u):
+    """close() removes a descriptor from an epoll set only when the last reference to the open file description goes away.
+    A timerfd / pidfd created by the pool can be inherited by a child process (fork, posix_spawn): then the registration
+    survives close() and keeps reporting - with tpdata already 0 the loop decodes it as a persistent READ and spins.  Every
+    close of such a descriptor is preceded by its EPOLL_CTL_DEL."""
+    n = 0
+    for fn in u.function_list:
+        if fn.relfile() != tp.TP_C or not fn.has_cfg or fn.name not in ("tpt_ev_post", "tpt_loop"):
+            continue
+        for pos, root, c, ps in fn.calls({"close"}):
+            a = key(core.strip_casts(c["args"][0]))
+            if "tfd" not in a.lower():
+                continue
+            n += 1
+            rep.functions.add(fn.name)
+            dels = [p2 for p2, r2, c2, _ in fn.calls({"epoll_ctl"}) if len(c2["args"]) > 2 and const_val(c2["args"][1]) == 2 and
+                    key(core.strip_casts(c2["args"][2])) == a and fn.pos_dominates(p2, pos) and pos[0] in fn.reach_from([p2[0]])]
+            # the DEL must not be separated from the close by an exit: same block or dominating with no other successor
+            desc = "%s: the pool-created descriptor %s is removed from the epoll set before it is closed" % (fn.name, a)
+            (rep.proved if dels else rep.violated)("R-CLOSEDEL", fn, "del-before-close#%d" % n, desc, "" if dels else
+                                                   "closed without EPOLL_CTL_DEL: with the descriptor inherited by a spawned child, a deleted 20 ms timer keeps calling "
+                                                   "back (about 680000 times in 300 ms) until the child exits", c.get("ln"))
+    return n
+
+
+def add_target_rule(rep, u):
+    """tpt_ev_add*() store the thread into the record before validating: with a NULL thread a refused call leaves a live
+    registration pointing nowhere (NULL dereference in the loop when it fires).  The store is behind a NULL test."""
+    n = 0
+    for fn in u.function_list:
+        if fn.relfile() != tp.TP_C or not fn.has_cfg or not fn.name.startswith("tpt_ev_add"):
+            continue
+        for pos, root, x, ps in fn.nodes():
+            if not (x.get("k") == "bin" and x["op"] == "=" and core.strip_casts(x["x"]).get("k") == "mem" and core.strip_casts(x["x"])["f"] == "tpt"):
+                continue
+            src = core.strip_casts(x["y"])
+            if not (src.get("k") == "ref" and src.get("dk") == "parm"):
+                continue
+            n += 1
+            rep.functions.add(fn.name)
+            ok = False
+            for bid in fn.reachable_blocks():
+                cnd = fn.blocks[bid].cond
+                if cnd is None or not fn.dominates(bid, pos[0]) or bid == pos[0]:
+                    continue
+                if any(core.is_ref(y, name=src["n"]) for y, _ in _walk(cnd)) and any(pos[0] not in fn.reach_from([s_]) for s_ in fn.blocks[bid].rsucc()):
+                    ok = True
+            desc = "%s: the record's thread is stored only after the thread argument was tested" % fn.name
+            (rep.proved if ok else rep.violated)("R-OUTDEF", fn, "thread-stored-after-test", desc, "" if ok else
+                                                 "stored before any test: add(NULL thread) returns EINVAL but the live registration now has tpt = NULL - del fails and "
+                                                 "the next event dereferences it", x.get("ln"))
+    return n
